@@ -67,14 +67,15 @@ def run(ctx):
                      'discriminator: (a) NodeId / ExpandedNodeId: the IdType written for each identifier kind is the Part 6 code and the '
                      'deserializer builds the same kind for that code; (b) Variant::json_id maps every scalar Variant variant to the '
                      'VariantJsonId of the same name; (c) in VariantVisitor::visit_some every arm guarded by `t == VariantJsonId::X as u32` '
-                     'that builds a Variant directly builds Variant::X. Equality of the values themselves goes through serde_json and is not '
-                     'decided.')
+                     'that builds a Variant directly builds Variant::X. (d) UAString / ByteString write JSON null exactly for the null value and build null() only from JSON null. Equality of the '
+                     'values themselves goes through serde_json and is not decided.')
     r.rule_text = 'E6 table agreement between serializer and deserializer constants read from MIR'
     n = 0
     for ty in ('types::node_id::NodeId', 'types::expanded_node_id::ExpandedNodeId'):
         n += id_type_tables(ctx, ty, 'id-type-table')
     r.count('id_type_entries', n)
     r.floor('id-type-table', 'id_type_entries', n, 16)
+    null_vs_empty(ctx)
     # (b) json_id
     rule = 'variant-json-id'
     jb = db.find_bodies(r'^types::variant_json::<impl types::variant::Variant>::json_id$')
@@ -129,3 +130,56 @@ def run(ctx):
         else:
             r.ok(rule, 'visit_some', '%d arms build the Variant their Type code names' % narm, loc=b.loc)
         r.floor(rule, 'visit_arms', narm, 12)
+
+
+def null_vs_empty(ctx, rule='null-vs-empty'):
+    """UAString / ByteString: JSON null is written exactly for the null value (value == None), never for an empty one,
+    and the visitors build null() only for JSON null"""
+    r, db = ctx.r, ctx.db
+    n = 0
+    for ty in ('types::string::UAString', 'types::byte_string::ByteString'):
+        short = ty.rsplit('::', 1)[-1]
+        sb = db.find_bodies(r'^<%s as .*_serde::Serialize>::serialize$' % re.escape(ty))
+        if not sb:
+            r.lost(rule, short + ':serialize', 'Serialize of %s not found' % short); continue
+        b = sb[0]; F = ctx.facts(b)
+        nones = [c for c in b.calls() if c.callee.endswith('Serializer::serialize_none') or c.callee.endswith('::serialize_unit')]
+        somes = [c for c in b.calls() if re.search(r'Serializer::serialize_(str|some|bytes)$', c.callee)]
+        if not nones or not somes:
+            r.lost(rule, short + ':calls', 'serialize_none / serialize_str not found in Serialize of %s' % short); continue
+        def presence(c):
+            out = set()
+            for l, e in F.literals_at(c.bb):
+                if l[0] == 'variant' and l[2] in ('Some', 'None') and fmt_sym(b, l[1]).replace('Option::as_ref(&', '').rstrip(')').endswith('.value'):
+                    out.add((l[2] == 'Some') == l[3])
+            return out
+        probs = []
+        for c in nones:
+            n += 1
+            if presence(c) != {False}:
+                probs.append('JSON null is written on a path not limited to value == None (conditions on .value: %s)' % sorted(presence(c)))
+            extra = [fmt_lit(b, l) for l, e in F.literals_at(c.bb) if re.search(r'is_empty|is_null_or_empty|len\(', fmt_lit(b, l))]
+            if extra:
+                probs.append('the choice of JSON null depends on emptiness: %s' % extra[0][:80])
+        for c in somes:
+            n += 1
+            if presence(c) != {True}:
+                probs.append('the string form is written on a path not limited to value == Some (conditions on .value: %s)' % sorted(presence(c)))
+        if probs:
+            r.fail(rule, short + ':serialize', '%s: null and empty are not kept apart when writing JSON: %s' % (short, '; '.join(probs[:2])), loc=b.loc)
+        else:
+            r.ok(rule, short + ':serialize', '%s: JSON null exactly when value is None, the string form exactly when it is Some' % short, loc=b.loc)
+        # visitor
+        vn = db.find_bodies(r'^<%sVisitor as .*Visitor<.de>>::visit_none$' % re.escape(ty))
+        vs = db.find_bodies(r'^<%sVisitor as .*Visitor<.de>>::visit_str$' % re.escape(ty))
+        if not vn or not vs:
+            r.lost(rule, short + ':visitor', 'visit_none / visit_str of %sVisitor not found' % short); continue
+        n += 2
+        none_calls = [c.callee.rsplit('::', 1)[-1] for c in vn[0].calls()]
+        str_calls = [c.callee.rsplit('::', 1)[-1] for c in vs[0].calls()]
+        if 'null' in none_calls and 'null' not in str_calls:
+            r.ok(rule, short + ':visitor', '%sVisitor builds null() for JSON null only' % short, loc=vn[0].loc)
+        else:
+            r.fail(rule, short + ':visitor', '%sVisitor: visit_none calls %s, visit_str calls %s - null() must come from JSON null only' % (short, none_calls, str_calls), loc=vn[0].loc)
+    r.count('null_empty_sites', n)
+    r.floor(rule, 'null_empty_sites', n, 8)
